@@ -303,6 +303,11 @@ func (ms *Modules) FindModuleByNamespace(ns string) (*Module, error) {
 	var found *Module
 	for _, m := range ms.Modules {
 		if m.Namespace.Name == ns {
+			// Several revisions of a module are one module; the bare
+			// name denotes the latest of them.
+			if l := ms.Modules[m.Name]; l != nil && l.Namespace.Name == ns {
+				m = l
+			}
 			switch {
 			case m == found:
 			case found != nil:
